@@ -234,7 +234,12 @@ def check_smooth(ctx: Ctx):
     m = sum(o.numel() for o in outs)
     w = [rng.uniform(-2, 2) for _ in range(m)]
     chunk = rng.choice([None, 1, 2, 3])
-    backward(outs, Constant(torch.tensor(w, dtype=torch.float64)), inputs=leaves, parallel_chunk_size=chunk)
+    try:
+        backward(outs, Constant(torch.tensor(w, dtype=torch.float64)), inputs=leaves, parallel_chunk_size=chunk)
+    except Exception as e:  # noqa: BLE001
+        ctx.violation(f"smooth program {plan}: backward with Constant ({m} weights for {m} output scalars, chunk {chunk}) raised "
+                      f"{type(e).__name__}: {str(e)[:200]}", {"api": "backward-smooth", "plan": plan, "weights": w, "chunk": chunk})
+        return
     l2, o2 = build()
     gts, off = [], 0
     for o in o2:
